@@ -280,28 +280,78 @@ func histSelfTest(c *engine.Check) string {
 
 // histCulprit names the operation family a violation is attributed to (one signature = one defect site): the
 // first operation of the history after which, alone on a fresh RP, the URL of rp.AuthURL no longer carries the
-// configured values; "other-operations" when no single one does it.
+// configured values; "other-operations" when no single one does it; "" when that URL is wrong on an RP nothing was
+// called on (the violation has nothing to do with the history).
 func histCulprit(c *engine.Check, p *cfg, ops []string, rep int) string {
 	culprit := "other-operations"
 	_ = engine.Bubble(c.T, time.Hour, func() {
-		for _, op := range ops {
-			if op == "none" {
-				continue
-			}
+		probe := func(op string) bool { // true: after op (alone, on a fresh RP) rp.AuthURL's URL is wrong
 			w, err := newWorld(p)
 			if err != nil {
-				return
+				return false
 			}
-			for i := 0; i < rep; i++ {
+			for i := 0; i < rep && op != ""; i++ {
 				w.histDo(op)
 			}
-			if r := w.judgeAuthURL(rp.AuthURL("probe", w.party), "probe"); r.Sig != "" {
+			return w.judgeAuthURL(rp.AuthURL("probe", w.party), "probe").Sig != ""
+		}
+		if probe("") {
+			culprit = "" // wrong on an RP nothing was called on yet
+			return
+		}
+		for _, op := range ops {
+			if op != "none" && probe(op) {
 				culprit, _, _ = strings.Cut(op, ":")
 				return
 			}
 		}
 	})
 	return culprit
+}
+
+// histRun executes one history [pre] start1 [mid] callback1 [btw] start2 callback2 on one fresh RP; the result is
+// the first violation, else the verdict of the last callback.
+func histRun(c *engine.Check, p *cfg, ctor string, slots []string, rep int, method string) (res engine.Result, ierr string) {
+	pan := engine.Bubble(c.T, time.Hour, func() {
+		w, err := newWorld(p)
+		if err != nil {
+			res = engine.Bad("rphist/constructor", "refused", "C17/constructor-refused/"+ctor+"/scope-list", err.Error())
+			return
+		}
+		// one step of the history; true = stop (violation or machinery error)
+		slot := func(i int) bool {
+			if slots[i] == "none" {
+				return false
+			}
+			for n := 0; n < rep; n++ {
+				if r, _ := w.histDo(slots[i]); r.Sig != "" || r.Rule == "internal" {
+					res = r
+					return true
+				}
+			}
+			return false
+		}
+		login := func(k int) bool {
+			r, _ := w.start("start", true)
+			if r.Sig != "" || r.Rule == "internal" {
+				res = r
+				return true
+			}
+			if k == 1 && slot(1) {
+				return true
+			}
+			res, _ = w.callback(cbOp{qs: fmt.Sprintf("s%d", k), k: "code", sc: "asis", pc: "asis", pv: "ok", m: method}, true)
+			return res.Sig != "" || res.Rule == "internal"
+		}
+		_ = slot(0) || login(1) || slot(2) || login(2)
+	})
+	if pan != "" {
+		return res, "case panicked: " + pan
+	}
+	if res.Rule == "internal" {
+		return res, res.Outcome
+	}
+	return res, ""
 }
 
 func histPart(c *engine.Check) {
@@ -332,55 +382,21 @@ func histPart(c *engine.Check) {
 				if sp.Get(v, "rep") == "2" {
 					rep = 2
 				}
-				var res engine.Result
-				after := "" // other operations ran before the judged step
-				pan := engine.Bubble(c.T, time.Hour, func() {
-					w, err := newWorld(p)
-					if err != nil {
-						res = engine.Bad("rphist/constructor", "refused", "C17/constructor-refused/"+sp.Get(v, "ctor")+"/scope-list", err.Error())
-						return
+				slots := []string{sp.Get(v, "pre"), sp.Get(v, "mid"), sp.Get(v, "btw")}
+				res, ierr := histRun(c, p, sp.Get(v, "ctor"), slots, rep, sp.Get(v, "m"))
+				if ierr == "" && res.Sig != "" && slices.ContainsFunc(slots, func(o string) bool { return o != "none" }) {
+					// one signature = one defect site: if the two logins alone (fresh history, no other operation) break the
+					// same clause, the history has nothing to do with it; otherwise the violation is attributed to an operation
+					var r0 engine.Result
+					if r0, ierr = histRun(c, p, sp.Get(v, "ctor"), []string{"none", "none", "none"}, 1, sp.Get(v, "m")); ierr == "" && r0.Sig != res.Sig {
+						if who := histCulprit(c, p, slots, rep); who != "" {
+							res.Sig += "/after-" + who
+						}
 					}
-					// one step of the history; true = stop (violation or machinery error)
-					slot := func(name string) bool {
-						op := sp.Get(v, name)
-						if op == "none" {
-							return false
-						}
-						for i := 0; i < rep; i++ {
-							r, _ := w.histDo(op)
-							if r.Sig != "" || r.Rule == "internal" {
-								res = r
-								return true
-							}
-						}
-						after = op
-						return false
-					}
-					login := func(k int) bool {
-						r, _ := w.start("start", true)
-						if r.Sig != "" || r.Rule == "internal" {
-							res = r
-							return true
-						}
-						if k == 1 && slot("mid") {
-							return true
-						}
-						res, _ = w.callback(cbOp{qs: fmt.Sprintf("s%d", k), k: "code", sc: "asis", pc: "asis", pv: "ok", m: sp.Get(v, "m")}, true)
-						return res.Sig != "" || res.Rule == "internal"
-					}
-					_ = slot("pre") || login(1) || slot("btw") || login(2)
-				})
-				if pan != "" {
-					c.Internal("rphist: case panicked: " + pan)
-					return engine.Result{Rule: "internal", Outcome: "error"}
 				}
-				if res.Rule == "internal" {
-					c.Internal("rphist: " + res.Outcome)
+				if ierr != "" {
+					c.Internal("rphist: " + ierr)
 					return engine.Result{Rule: "internal", Outcome: "error"}
-				}
-				if res.Sig != "" && after != "" {
-					// the same login is judged in a fresh history by every other part: this one differs by what ran before
-					res.Sig += "/after-" + histCulprit(c, p, []string{sp.Get(v, "pre"), sp.Get(v, "mid"), sp.Get(v, "btw")}, rep)
 				}
 				return res
 			}
